@@ -8,6 +8,7 @@ structure DSt where
   m : St := {}
   s : Refs.SSt := {}
   cnt : Nat := 0
+  named : Nat := 0      -- objects created by `r obj`; later ones are buffers handed out by detach
 
 def fmtCount (v : Nat) : String :=
   if v = MAXV then "max" else if v + 1 = MAXV then "max-1" else toString v
@@ -15,12 +16,14 @@ def fmtCount (v : Nat) : String :=
 def parseCount (w : String) : Option Nat :=
   if w == "max" then some MAXV else if w == "max-1" then some (MAXV - 1) else w.toNat?
 
-def fmtHnd (hnd : List (Option Nat)) : String :=
+def fmtHnd (named : Nat) (hnd : List (Option Nat)) : String :=
   " ".intercalate ((List.range hnd.length).map fun h =>
-    match hnd.getD h none with | some o => s!"h{h}={o}" | none => s!"h{h}=-")
+    match hnd.getD h none with
+    | some o => if o < named then s!"h{h}={o}" else s!"h{h}=n{o - named}"
+    | none => s!"h{h}=-")
 
-def fmtEl (toks : List Nat) : String :=
-  if toks.isEmpty then "-" else ",".intercalate (toks.map fun t => s!"f{t}")
+def fmtEl (evs : List ElEv) : String :=
+  if evs.isEmpty then "-" else ",".intercalate (evs.map fun e => match e with | .fini t => s!"f{t}" | .copy t => s!"c{t}")
 
 def fmtObj (i : Nat) (kind : OKind) (alive : Bool) (count : Nat) (add unref : Nat) (destroyed dead : Bool) : String :=
   match kind with
@@ -30,34 +33,35 @@ def fmtObj (i : Nat) (kind : OKind) (alive : Bool) (count : Nat) (add unref : Na
   | .raw => s!"o{i}=raw"
 
 /-- C section of the model state -/
-def fmtM (s : St) : String :=
-  let os := (List.range s.objs.length).map fun i =>
+def fmtM (named : Nat) (s : St) : String :=
+  let os := (List.range named).map fun i =>
     let o := s.obj i; let e := s.evOf i
     fmtObj i o.kind o.alive o.count e.add e.unref e.destroyed e.dead
-  " ".intercalate (os ++ [fmtHnd s.hnd, "el=" ++ fmtEl s.elog])
+  " ".intercalate (os ++ [fmtHnd named s.hnd, "el=" ++ fmtEl s.elog])
 
 /-- C section the spec expects for an alternative -/
-def fmtS (a : Refs.Alt) : String :=
+def fmtS (named : Nat) (a : Refs.Alt) : String :=
   let s := a.st
-  let os := (List.range s.objs.length).map fun i =>
+  let os := (List.range named).map fun i =>
     let o := s.objs.getD i default
     let evs := a.evs.filter (·.obj == i)
     let add := (evs.map (·.add)).foldl (· + ·) 0
     let unref := (evs.map (·.unref)).foldl (· + ·) 0
     let destroyed := evs.any (·.destroyed)
     fmtObj i o.kind (!o.dead) (Refs.refs s i) add unref destroyed (evs.any (·.dead))
-  let el := (a.evs.filter (·.destroyed)).flatMap fun e => (s.objs.getD e.obj default).elems
-  " ".intercalate (os ++ [fmtHnd s.hnd, "el=" ++ fmtEl el])
+  let el : List ElEv := (a.evs.flatMap fun e => e.copied.map ElEv.copy) ++
+    ((a.evs.filter (·.destroyed)).flatMap fun e => ((s.objs.getD e.obj default).elems).map ElEv.fini)
+  " ".intercalate (os ++ [fmtHnd named s.hnd, "el=" ++ fmtEl el])
 
-def fmtAlts (alts : List Refs.Alt) (okR : String := "ok") : String :=
-  " || ".intercalate (alts.map fun a => s!"{if a.ok then okR else "refused"} ; {fmtS a}")
+def fmtAlts (named : Nat) (alts : List Refs.Alt) (okR : String := "ok") : String :=
+  " || ".intercalate (alts.map fun a => s!"{if a.ok then okR else "refused"} ; {fmtS named a}")
 
 def fmtRet : RRet → String
   | .ok n => toString n | .err e => e.name
 
 /-- keep the spec state in step with the model: the alternative the model's outcome matches -/
-def pick (alts : List Refs.Alt) (ok : Bool) (c : String) (dflt : Refs.SSt) : Refs.SSt :=
-  match alts.find? (fun a => a.ok == ok && fmtS a == c) with
+def pick (named : Nat) (alts : List Refs.Alt) (ok : Bool) (c : String) (dflt : Refs.SSt) : Refs.SSt :=
+  match alts.find? (fun a => a.ok == ok && fmtS named a == c) with
   | some a => a.st
   | none => dflt
 
@@ -78,9 +82,9 @@ def fmtShared (s : St) : String :=
     | none => "")
 
 def finish (d : DSt) (m' : St) (ok : Bool) (iret : String) (alts : List Refs.Alt) : DSt × String :=
-  let c := fmtM m'
-  ({ d with m := m', s := pick alts ok c d.s },
-   line (if ok then "ok" else "refused") c (iret ++ fmtShared m') (fmtAlts alts))
+  let c := fmtM d.named m'
+  ({ d with m := m', s := pick d.named alts ok c d.s },
+   line (if ok then "ok" else "refused") c (iret ++ fmtShared m') (fmtAlts d.named alts))
 
 def step (d : DSt) (w : List String) : DSt × String :=
   let m := d.m.clearEv
@@ -103,18 +107,20 @@ def step (d : DSt) (w : List String) : DSt × String :=
     match parseCount v with
     | none => (d, "bad-op")
     | some n =>
-      if m.objs.length ≥ 3 then (d, "bad-op") else
+      if m.objs.length ≥ 3 ∨ m.objs.length ≠ d.named then (d, "bad-op") else
       let i := m.objs.length
       let mk (k : OKind) (count : Nat) (elems : List Nat) : DSt × String :=
-        let m' : St := { m with objs := m.objs ++ [{ kind := k, count := count, alive := true, ext := count, elems := elems }],
+        let m' : St := { m with objs := m.objs ++ [{ kind := k, count := count, alive := true, ext := count, elems := elems,
+                                                     cap := capOf (elems.length * 8) }],
                                 ev := m.ev ++ [{}] }
         let s' : Refs.SSt := { d.s with objs := d.s.objs ++ [{ kind := k, ext := count, elems := elems }] }
         let r := s!"ok o={i}"
-        ({ d with m := m', s := s' }, line r (fmtM m') ("0" ++ fmtShared m') (fmtAlts [{ ok := true, st := s' }] r))
+        ({ d with m := m', s := s', named := i + 1 },
+         line r (fmtM (i + 1) m') ("0" ++ fmtShared m') (fmtAlts (i + 1) [{ ok := true, st := s' }] r))
       if kind == "meta" then mk .hmeta n []
       else if kind == "buf" then mk .hbuf n []
       else if kind == "rbuf" then
-        if n > 16 then (d, "bad-op") else mk .rbuf 1 ((List.range n).map fun j => 10 * (i + 1) + j)
+        if n > 32 then (d, "bad-op") else mk .rbuf 1 ((List.range n).map fun j => 10 * (i + 1) + j)
       else if kind == "raw" then (if n = 1 then mk .raw 1 [] else (d, "bad-op"))
       else (d, "bad-op")
   | ["r", "take", hs, os] =>
@@ -130,6 +136,16 @@ def step (d : DSt) (w : List String) : DSt × String :=
       if h = g ∨ !handleEmpty m h then (d, "bad-op") else
       let (m', r) := m.copy h g
       finish d m' (match r with | .ok _ => true | _ => false) (fmtRet r) (Refs.copy d.s h g)
+    | _, _ => (d, "bad-op")
+  | ["r", "detach", hs, ls] =>
+    match idx hs 3, ls.toNat? with
+    | some h, some len =>
+      match m.hnd.getD h none with
+      | none => (d, "bad-op")
+      | some o =>
+        if len > 64 ∨ (m.obj o).kind != .rbuf then (d, "bad-op") else
+        let (m', ok) := m.detach h len
+        finish d m' ok "0" (Refs.detach d.s h)
     | _, _ => (d, "bad-op")
   | ["r", "drop", hs] =>
     match idx hs 3 with
